@@ -607,6 +607,13 @@ pub fn contains_reg(e: &Expr) -> bool {
 }
 
 /// Initial register valuations: boundary-biased ints, finite floats of modest magnitude.
+/// Eight valuations for the price of one tape cell.
+pub fn gen_valuations(tape: &mut Tape, spec: &LangSpec, n: usize) -> Vec<Vec<(i32, crate::model::ops::Val)>> {
+    let data = tape.fork(n * (spec.regs.len() * 2 + 4));
+    let mut sub = Tape::new(&data);
+    (0..n).map(|_| gen_valuation(&mut sub, spec)).collect()
+}
+
 pub fn gen_valuation(tape: &mut Tape, spec: &LangSpec) -> Vec<(i32, crate::model::ops::Val)> {
     use crate::model::ops::Val;
     let ints: &[i32] = &[0, 1, -1, 2, 3, 7, -7, 100, i32::MAX, i32::MIN, 65536, -65536, 31, 32];
